@@ -38,6 +38,10 @@ def replay_fault(tag, rec):
             if st != 'ok':
                 cl.add('C14', 'construct', False, '%s %s' % (st, S))
                 break
+            # growth: the time limit given to solve() reaches the back end of every underlying solve
+            lim = (rec['limit'] / 1e6) if rec['limit'] else None
+            seen = [e.get('timeLimit') for e in r['events']]
+            cl.add('X', 'backend_receives_time_limit', all(x == lim for x in seen), 'solve(timeLimit=%r): back end saw %s' % (lim, seen))
             if r['exc'] is not None:
                 # an exception is not "presenting a matching"; it is reported under C02's no-exception clause
                 cl.add('C02', 'solve_no_exception_under_faults', False, '%s (policy %s)' % (r['exc'], policy))
